@@ -610,6 +610,8 @@ fn ref_block_step(
         if esc {
             esc = false;
         } else if c == b'\\' {
+            // precondition of the trusting skipper: backslashes occur only inside strings
+            kani::assume(in_str);
             esc = true;
         } else if c == b'"' {
             in_str = !in_str;
@@ -645,12 +647,14 @@ fn block_step_body<const OFF: usize>(left: u8, right: u8) {
     let l0: usize = kani::any();
     let r0: usize = kani::any();
     kani::assume(l0 < (1 << 20) && r0 <= l0);
+    kani::assume(in_str || !esc);
+    // the reference runs first: its assumptions (no stray backslash) must precede the code they constrain
+    let (exp, e_in, e_esc, e_l, e_r) = ref_block_step(&d, in_str, esc, l0, r0, left, right);
     let mut prev_instring: u64 = if in_str { u64::MAX } else { 0 };
     let mut prev_escaped: u64 = esc as u64;
     let mut l = l0;
     let mut r = r0;
     let got = skip_container_loop(&d, &mut prev_instring, &mut prev_escaped, &mut l, &mut r, left, right);
-    let (exp, e_in, e_esc, e_l, e_r) = ref_block_step(&d, in_str, esc, l0, r0, left, right);
     assert_eq!(got.map(|x| x.get()), exp);
     if exp.is_none() {
         assert_eq!(prev_instring, if e_in { u64::MAX } else { 0 });
@@ -774,5 +778,60 @@ fn b_skip_string_w24() {
     kani::cover!(matches!(&r, Ok(ParseStatus::HasEscaped)) && p.read.index() == 39);
     kani::cover!(r.is_ok() && p.read.index() == 33);
     kani::cover!(r.is_err() && buf[31] == b'\\');
+    core::mem::forget(r);
+}
+
+/// C10/C12 B-skip_string_unchecked: 64-byte buffer (two 32-byte blocks), symbolic window of 10
+/// bytes at 27..37 across the block edge, an unescapable closing quote at 40: on every
+/// well-formed literal the trusting skipper (with its escape carry between blocks) stops
+/// exactly after the closing quote and reports HasEscaped iff a backslash occurs.
+#[kani::proof]
+#[kani::unwind(4)]
+#[kani::stub(crate::error::Error::syntax, crate::error::verif_kani_error::syntax_cut)]
+fn b_skip_string_unchecked_w27() {
+    const N: usize = 64;
+    let mut buf = windowed::<N, 10>(27, b'x');
+    buf[40] = b'"';
+    let end = ref_string_end(&buf, N, 0);
+    kani::assume(end.is_some());
+    let end = end.unwrap();
+    let mut p = mk(&buf[..]);
+    let r = unsafe { p.skip_string_unchecked() };
+    match &r {
+        Ok(st) => {
+            assert_eq!(p.read.index(), end);
+            assert_eq!(*st == ParseStatus::HasEscaped, ref_has_backslash(&buf, 0, end));
+        }
+        Err(_) => panic!("skip_string_unchecked (block path) rejects a well-formed literal"),
+    }
+    kani::cover!(end == 41 && buf[31] == b'\\' && buf[32] == b'"');
+    kani::cover!(end == 41 && buf[30] == b'\\' && buf[31] == b'\\' && buf[32] != b'"');
+    kani::cover!(end < 36);
+    core::mem::forget(r);
+}
+
+/// C02/C14/C08 B-skip_number: 72-byte buffer of digits with a 10-byte symbolic window at 29..39
+/// (the lanes around the end of the first 32-byte chunk, which starts at index 2) and a
+/// terminating comma at 70: accept/reject and stop index equal the number grammar.
+#[kani::proof]
+#[kani::unwind(4)]
+#[kani::stub(crate::error::Error::syntax, crate::error::verif_kani_error::syntax_cut)]
+fn b_skip_number_w29() {
+    const N: usize = 72;
+    let mut buf = windowed::<N, 10>(29, b'1');
+    buf[70] = b',';
+    let mut p = mk(&buf[..]);
+    p.read.eat(1);
+    let r = p.do_skip_number(buf[0]);
+    let expect = ref_number_end(&buf, N, 0);
+    match (&r, expect) {
+        (Ok(()), Some(end)) => assert_eq!(p.read.index(), end),
+        (Err(_), None) => {}
+        _ => panic!("do_skip_number (block path): accept/reject differs from the RFC 8259 number grammar"),
+    }
+    kani::cover!(r.is_ok() && p.read.index() == 70 && buf[32] == b'.');
+    kani::cover!(r.is_ok() && p.read.index() == 70 && buf[33] == b'.' && buf[36] == b'E');
+    kani::cover!(r.is_err() && buf[32] == b'.' && buf[34] == b'.');
+    kani::cover!(r.is_ok() && p.read.index() < 40);
     core::mem::forget(r);
 }
